@@ -117,6 +117,9 @@ func runC17(c *Ctx) {
 		}
 	}
 
+	R.Rule("R-data-generic", "E3+E4", "dataErrorToStatus passes an SMTPError's three fields through and maps any other error to 554 / 5.x.x with the error's text", 3)
+	ruleDataErrorToStatus(c)
+
 	R.Rule("R-client-parse", "E4 + who-may-call", "every reply read by the client goes through readResponse, which converts textproto.Error with toSMTPErr; toSMTPErr copies the code and separates enhanced code and text", 4)
 	for _, f := range c.P.AllFuncs() {
 		if !strings.HasPrefix(funcName(f), "(*Client).") && !strings.HasPrefix(funcName(f), "(*dataCloser).") {
@@ -170,6 +173,24 @@ func runC17(c *Ctx) {
 		for _, site := range s.Find(f, "st:SMTPError.EnhancedCode") {
 			c.obFactMatch("enhanced code only when it parses", site, `^parseEnhancedCode\(.*\)#1 == nil$`, "enhanced code stored although parsing failed")
 		}
+		// when the enhanced code is split off, the message is what follows it (with the per-line repetitions removed)
+		for _, site := range s.Find(f, "st:SMTPError.EnhancedCode") {
+			site := site
+			c.obAccompanied("message without the enhanced code prefix", f, func(in ssa.Instruction) bool { return in == site }, []string{"st:SMTPError.Message"}, "enhanced code taken from the text but the message keeps it as a prefix")
+		}
+		nMsg := 0
+		for _, site := range s.Find(f, "st:SMTPError.Message") {
+			_, _, v := storedField(site)
+			d := describe(v)
+			if d == "textproto.Error.Msg" {
+				continue
+			}
+			nMsg++
+			ok := strings.Contains(d, `strings.SplitN(textproto.Error.Msg," ",2)[1]`)
+			R.Ob(c.siteKey(site, "message is the text after the enhanced code"), c.P.InstrPos(site), ok, "SMTPError.Message becomes "+d)
+			c.obFactMatch("message cut only when the code parses", site, `^parseEnhancedCode\(.*\)#1 == nil$`, "message cut although the first word is not an enhanced code")
+		}
+		R.Ob("toSMTPErr/message separated from the enhanced code", c.P.Pos(f.Pos()), nMsg >= 1, "no store of the message without its enhanced code prefix")
 	}
 }
 
